@@ -12,6 +12,34 @@ def _stmts(fn):
             yield bi, si, st
 
 
+def _step_shape(r, is_sum, is_byte):
+    """r == table[((sum ^ byte) as u8)] ^ (sum >> 8)"""
+    if not (r[0] == "binop" and r[1] == "BitXor"):
+        return False
+    for a, b in ((r[2], r[3]), (r[3], r[2])):
+        a, b = strip(a), strip(b)
+        shr = b[0] == "binop" and ((b[1] == "Shr" and const_val(b[3]) == 8) or (b[1] == "Div" and const_val(b[3]) == 256)) and is_sum(strip_casts(b[2]))
+        if not (shr and a[0] == "index"):
+            continue
+        base = strip(a[1])
+        if not (base[0] == "field" and base[2].endswith("table")):
+            continue
+        i1 = strip(a[2])
+        narrowed = False
+        while i1[0] == "cast":
+            if i1[1] == "u8":
+                narrowed = True
+            i1 = strip(i1[2])
+        if i1[0] == "binop" and i1[1] == "BitAnd" and 255 in (const_val(i1[2]), const_val(i1[3])):
+            narrowed = True
+            i1 = strip_casts(i1[2] if const_val(i1[3]) == 255 else i1[3])
+        if narrowed and i1[0] == "binop" and i1[1] == "BitXor":
+            x, y = strip_casts(i1[2]), strip_casts(i1[3])
+            if (is_sum(x) and is_byte(y) and x == strip_casts(b[2])) or (is_sum(y) and is_byte(x) and y == strip_casts(b[2])):
+                return True
+    return False
+
+
 def crc32c_shape(ctx, prog, rule="R5", new_path="crc32::Crc32::new", calc_path="crc32::Crc32::calculate"):
     f = prog.fn(new_path)
     ctx.fn_seen(f)
@@ -86,12 +114,24 @@ def crc32c_shape(ctx, prog, rule="R5", new_path="crc32::Crc32::new", calc_path="
     ok_halve = False
     if inner is not None and halvings and guard_ok:
         body = loops[inner]
-        hb = {b for b, _ in halvings}
-        # from the low-bit switch, the loop header must be unreachable without passing a halving
+        hb = {b for b, _ in halvings if b in body}
         g = {b: [s for s in ss if s in body] for b, ss in f.cfg().items() if b in body}
-        p = find_path(g, g.get(sw_block, []), {inner}, hb)
-        before_xor = any((b == xb and s < xsi) or (b != xb and f.dominates(b, xb) and b in body and f.dominates(sw_block, b)) for b, s in halvings)
-        ok_halve = p is None and before_xor
+        # (a) no trip around the round loop avoids the halving
+        cycle = find_path(g, g.get(inner, []), {inner}, hb) if inner not in hb else None
+        # (b) within a round the halving comes before the xor
+        before_xor = any((b == xb and s < xsi) or (b != xb and b in body and b != inner and f.dominates(b, xb)) for b, s in halvings)
+        # (c) the low bit that is tested is the one of the value before the halving: the parity statement is not
+        #     preceded by a halving of the same round
+        par = None
+        dl = op_place(f.blocks[sw_block]["term"]["discr"])
+        for bi, si, st in _stmts(f):
+            rv = st["rv"]
+            if rv["k"] == "binop" and ((rv["op"] == "Rem" and const_int(rv["b"]) == 2) or (rv["op"] == "BitAnd" and 1 in (const_int(rv["a"]), const_int(rv["b"])))):
+                pa = op_place(rv["a"]) or op_place(rv["b"])
+                if pa and pa["local"] == v or (pa and strip_casts(R.place(pa)) == strip_casts(R.local(v))):
+                    par = (bi, si)
+        parity_first = par is not None and not any((b == par[0] and sidx < par[1]) or (b != par[0] and b in body and b != inner and f.dominates(b, par[0])) for b, sidx in halvings)
+        ok_halve = cycle is None and before_xor and parity_first
     ctx.ob(rule, "halving/Crc32::new", ok_halve, "every round halves the value (v/2 or v>>1) and the xor follows the halving: %d halving statements" % len(halvings),
            where=f.file_line(xb, xsi))
     # 4. rounds and entries
@@ -104,6 +144,12 @@ def crc32c_shape(ctx, prog, rule="R5", new_path="crc32::Crc32::new", calc_path="
             ranges.append(("incl",) + tuple(const_int(o) for o in rv["ops"][:2]))
     ok_r = ((0, 256) in ranges or ("incl", 0, 255) in ranges) and ((0, 8) in ranges or ("incl", 0, 7) in ranges or ("incl", 1, 8) in ranges)
     rep = [st["rv"]["n"] for _, _, st in _stmts(f) if st["rv"]["k"] == "repeat"]
+    # the entries may also be enumerated by iterating the 256-element table itself
+    def _is_table(tr):
+        return any(x[0] == "repeat" and str(x[2]).strip().startswith("256") for x in leaves(tr))
+    over_table = any(_is_table(R.operand(t["args"][0])) for bi, t in f.calls(lambda c, t: c.endswith("::iter_mut") or c.endswith("::iter")) if t["args"])
+    rounds8 = (0, 8) in ranges or ("incl", 0, 7) in ranges or ("incl", 1, 8) in ranges
+    ok_r = ok_r or (rounds8 and over_table)
     ctx.ob(rule, "rounds-and-entries/Crc32::new", ok_r and any(r.strip().startswith("256") for r in rep),
            "loop ranges %s, table repeat lengths %s (expected 256 entries x 8 rounds)" % (ranges, rep))
     # 5. table[i] = v with v initialised from i
@@ -118,6 +164,21 @@ def crc32c_shape(ctx, prog, rule="R5", new_path="crc32::Crc32::new", calc_path="
                     # the stored value is (a copy of) v and v starts as the loop index
                     starts = [strip_casts(R.rvalue(p)) for k2, p, b2, s2, pl in f.defs().get(v, []) if k2 == "stmt" and p["k"] == "use"]
                     store_ok = any(s == idx for s in starts)
+    if not store_ok:
+        # for (i, entry) in table.iter_mut().enumerate() { *entry = v(i) }
+        for n, ds in f.defs().items():
+            for kind, payload, bi, si, place in ds:
+                if kind == "stmt" and place["proj"] and place["proj"][-1]["k"] == "deref" and payload["k"] == "use":
+                    tgt = R.local(place["local"])
+                    if tgt[0] == "partial":
+                        tgt = tgt[1]
+                    src = op_place(payload["op"])
+                    if src is None or tgt[0] != "field" or tgt[2] != "1" or tgt[1][0] != "ok":
+                        continue
+                    item = tgt[1]
+                    starts = [strip_casts(R.rvalue(p)) for k2, p, b2, s2, pl in f.defs().get(v, []) if k2 == "stmt" and p["k"] == "use"]
+                    val = strip_casts(R.place(src))
+                    store_ok = any(s2[0] == "field" and s2[2] == "0" and s2[1] == item for s2 in starts) and (src["local"] == v or val == strip_casts(R.local(v)))
     ctx.ob(rule, "table-store/Crc32::new", store_ok, "table[i] receives the value that was initialised with i")
 
     # calculate
@@ -132,10 +193,23 @@ def crc32c_shape(ctx, prog, rule="R5", new_path="crc32::Crc32::new", calc_path="
         if fold[0] == "call" and fold[1].endswith("::fold"):
             init = strip(fold[2][1])
             ok_calc = init[0] == "unop" and init[1] == "Not" and const_val(init[2]) == 0
-    ctx.ob(rule, "init-and-xorout/Crc32::calculate", ok_calc, "result tree %s (expected !fold(!0, step))" % desc)
+    loop_step = None
+    if not ok_calc and ret[0] == "unop" and ret[1] == "Not":
+        acc = strip(ret[2])
+        # `let mut sum = !0; for &b in data { sum = step(sum, b) } !sum`: the accumulator is a two-way phi
+        if acc[0] == "phi" and len(acc[1]) == 2:
+            inits = [a for a in acc[1] if strip(a)[0] == "unop" and strip(a)[1] == "Not" and const_val(strip(a)[2]) == 0]
+            steps = [a for a in acc[1] if a not in inits]
+            if len(inits) == 1 and len(steps) == 1:
+                ok_calc = True
+                loop_step = strip(steps[0])
+    ctx.ob(rule, "init-and-xorout/Crc32::calculate", ok_calc, "result tree %s (expected !fold(!0, step) or the equivalent loop over an accumulator initialised with !0)" % desc)
     cls = prog.closures_of(c)
     ok_step = False
     sdesc = "no closure"
+    if loop_step is not None:
+        ok_step, sdesc = _step_shape(loop_step, lambda t: t[0] == "local", lambda t: t[0] == "ok" or (t[0] == "field" and t[1][0] == "ok") or (t[0] == "call" and t[1].endswith("::next"))), tree_str(loop_step)
+        cls = []
     for cl in cls:
         ctx.fn_seen(cl)
         Rl = Resolver(cl)
